@@ -502,6 +502,10 @@ pub enum AesPlan {
     /// XOR mask on two bytes, bytes exchanged, every other value of one byte, all-zero / all-ones fields,
     /// 16-byte blocks exchanged - "ANY change ... makes opening or reading it fail"
     Patterns { range: Option<(u64, u64)> },
+    /// one EINTR (ErrorKind::Interrupted: legal, retryable) at every source call index k, on the intact entry
+    /// (must still read exactly) and on a tampered one (must still fail): whether the authentication code is
+    /// checked must not depend on where a retryable interruption lands
+    Eintr { range: Option<(u64, u64)> },
 }
 
 #[derive(Serialize, Deserialize, Clone, Debug, PartialEq)]
@@ -584,7 +588,13 @@ impl Scenario for AesSc {
         }
         let plan = match plan_kind {
             0 | 1 => AesPlan::Passwords { wrong: (0..3).map(|_| Hex(r.rbytes(0, 12))).collect() },
-            2..=4 => AesPlan::AllFlips { range: None },
+            2..=4 => {
+                if Rng::derive(s, "eintr").chance(1, 4) {
+                    AesPlan::Eintr { range: None }
+                } else {
+                    AesPlan::AllFlips { range: None }
+                }
+            }
             5 => AesPlan::Patterns { range: None },
             6 | 7 | 8 => AesPlan::Flips((0..r.range(1, 12)).map(|_| (r.below(1 << 30), r.below(8) as u8)).collect()),
             _ => AesPlan::WrongCrc,
@@ -737,6 +747,38 @@ impl Scenario for AesSc {
                         let r = tamper(&img, format!("flip bit {} of {region} byte at blob offset {off}", k % 8), ctx);
                         img[p] ^= 1 << (k % 8);
                         r?;
+                    }
+                }
+                AesPlan::Eintr { range } => {
+                    let mut io = None;
+                    let _ = guard(|| read_entry(&store0, t, Some(&pw), &Policy::Pure, &c.bufs, &mut io))?;
+                    let n = io.as_ref().map(|i| stats(i).calls).unwrap_or(0);
+                    // the tampered twin: one ciphertext bit (or, for an entry without ciphertext, one code bit)
+                    let cs = info.csize;
+                    let toff = if cs > sl + 12 { sl + 2 + (cs - sl - 12) / 2 } else { cs - 1 };
+                    let mut timg = b.image.clone();
+                    timg[(info.data_start + toff) as usize] ^= 0x10;
+                    let tstore = shared_from(&timg);
+                    let (lo, hi) = range.unwrap_or((0, n));
+                    for k in lo..hi.min(n) {
+                        let pol = Policy::At { k, d: Decision::Eintr };
+                        ctx.sub_evals += 2;
+                        ctx.tick();
+                        let mut io = None;
+                        let r = guard(|| read_entry(&store0, t, Some(&pw), &pol, &c.bufs, &mut io))?;
+                        if let Some(io) = &io {
+                            ctx.absorb(io);
+                        }
+                        if !r.gave_up && (r.open.is_err() || r.err.is_some() || r.bytes != plain) {
+                            return Err(viol("C16/right-password-failed", format!("intact AE-{version} entry (method {}, {} bytes) with one EINTR at source call {k}: open {:?}, error {:?}, got {} bytes", ent.method, plain.len(), r.open, r.err, r.bytes.len())));
+                        }
+                        ctx.sub_sigs.push(mix(case_hash, mix(k, 77)));
+                        let mut io = None;
+                        let r = guard(|| read_entry(&tstore, t, Some(&pw), &pol, &c.bufs, &mut io))?;
+                        *ctx.fired.entry("eintr".to_string()).or_insert(0) += 1;
+                        if r.open.is_ok() && r.err.is_none() && !r.gave_up && !plain.is_empty() {
+                            return Err(viol("C16/tamper-undetected", format!("tampered AE-{version} entry (method {}, {} plaintext bytes, bit flipped at blob offset {toff}) read to EOF without error when one EINTR lands at source call {k} ({} bytes returned)", ent.method, plain.len(), r.bytes.len())));
+                        }
                     }
                 }
                 AesPlan::Patterns { range } => {
@@ -892,6 +934,14 @@ impl Scenario for AesSc {
                 let mid = lo + (hi - lo) / 2;
                 out.push(AesCase { plan: AesPlan::AllFlips { range: Some((lo, mid)) }, ..c.clone() });
                 out.push(AesCase { plan: AesPlan::AllFlips { range: Some((mid, hi)) }, ..c.clone() });
+            }
+        }
+        if let AesPlan::Eintr { range } = &c.plan {
+            let (lo, hi) = range.unwrap_or((0, 1 << 12));
+            if hi - lo > 1 {
+                let mid = lo + (hi - lo) / 2;
+                out.push(AesCase { plan: AesPlan::Eintr { range: Some((lo, mid)) }, ..c.clone() });
+                out.push(AesCase { plan: AesPlan::Eintr { range: Some((mid, hi)) }, ..c.clone() });
             }
         }
         if let AesPlan::Patterns { range } = &c.plan {
